@@ -14,10 +14,11 @@
 (*   "TiltCarriesOver" a tilt while ball_ending is held is not cleared when that ball has ended: the    *)
 (*                     next ball is started, devices are enabled, with game.tilted still set.           *)
 EXTENDS Integers, Sequences, FiniteSets, TLC
-CONSTANTS Dev,          \* device table: id -> [id, kind, dual, eos, rep, tmo, delay, btn, eosw, main, hold, auto, swap]
+CONSTANTS Dev,          \* device table: id -> [id, kind, dual, eos, rep, eosl, tmo, delay, btn, eosw, main, hold, auto, swap]
+                        \* (eosl: eos_active_ms_before_repulse of a software-repulse flipper, in time units)
           Configs,      \* records [active: devices that receive explicit requests, holdS, holdE: queue events held]
           BPG,          \* balls per game
-          ReEnable, SearchHold, EosLong, MaxHits,
+          ReEnable, SearchHold, MaxHits,
           MaxOps, MaxTime, MaxGames, Deviations
 VARIABLES cfg, phase, ball, tflag, pendEnd, collect, snap, last, s, btn, eos, eosAt, now, nops, games, act
 vars == <<cfg, phase, ball, tflag, pendEnd, collect, snap, last, s, btn, eos, eosAt, now, nops, games, act>>
@@ -27,6 +28,7 @@ Flippers == {d \in Devices : Dev[d].kind = "flipper"}
 Autos == Devices \ Flippers                              \* autofire coils and kickbacks
 FlipAuto == {d \in Devices : Dev[d].kind \in {"flipper", "autofire"}}
 Reps == {d \in Flippers : Dev[d].rep}                    \* EOS repulse emulated in software (switch handlers)
+EosLong(r) == Dev[r].eosl                                \* how long the EOS switch must have been closed before an opening is a knock-down
 TmoDevs == {d \in Autos : Dev[d].tmo}
 FCoilsOf(f) == {Dev[f].main} \cup (IF Dev[f].dual THEN {Dev[f].hold} ELSE {})
 FCoils == UNION {FCoilsOf(f) : f \in Flippers}
@@ -58,7 +60,7 @@ InitWith(c) ==
             flip |-> [f \in Flippers |-> FALSE], on |-> [k \in FCoils |-> FALSE],
             reAt |-> [a \in Autos |-> 0], hits |-> [a \in Autos |-> 0], srAt |-> [f \in Flippers |-> 0],
             rules |-> {}, mgr |-> {}, hBtn |-> [r \in Reps |-> FALSE], hLong |-> [r \in Reps |-> FALSE],
-            longAt |-> [r \in Reps |-> 0], calls |-> {}, viol |-> FALSE]
+            longAt |-> [r \in Reps |-> 0], calls |-> {}, pulsed |-> {}, viol |-> FALSE]
     /\ btn = [r \in Reps |-> FALSE] /\ eos = [r \in Reps |-> FALSE] /\ eosAt = [r \in Reps |-> 0]
     /\ now = 0 /\ nops = 0 /\ games = 0 /\ act = [op |-> "init"]
 Init == \E c \in Configs : InitWith(c)
@@ -76,7 +78,7 @@ DoEnable(st, S, t) ==
                   !.mgr = st.mgr \cup (N \cap Reps),
                   !.hBtn = [r \in Reps |-> IF r \in N THEN FALSE ELSE st.hBtn[r]],
                   !.hLong = [r \in Reps |-> IF r \in N THEN FALSE ELSE st.hLong[r]],
-                  !.longAt = [r \in Reps |-> IF r \in N THEN (IF eos[r] /\ eosAt[r] + EosLong > t THEN eosAt[r] + EosLong ELSE 0)
+                  !.longAt = [r \in Reps |-> IF r \in N THEN (IF eos[r] /\ eosAt[r] + EosLong(r) > t THEN eosAt[r] + EosLong(r) ELSE 0)
                                              ELSE st.longAt[r]]]
 \* disable(): idempotent; removes all rules, their handlers, a pending re-enable timer (even when not enabled) and
 \* leaves no coil of the flipper energised
@@ -99,11 +101,14 @@ TimeoutDisable(st, d) == [DoDisable(st, {d}) EXCEPT !.man = st.man, !.reAt[d] = 
 Hit1(st, d) == IF ~st.en[d] \/ ~Dev[d].tmo THEN st
                ELSE LET st1 == [st EXCEPT !.hits[d] = IF @ < MaxHits THEN @ + 1 ELSE @] IN
                     IF st1.hits[d] >= MaxHits THEN TimeoutDisable(st1, d) ELSE st1
+\* sw_flip(): the coil that holds is enabled; with two coils the main coil is pulsed by software
 FlipEff(st, f) == IF ~st.en[f] THEN st
-                  ELSE [st EXCEPT !.flip[f] = TRUE, !.on = [c \in FCoils |-> st.on[c] \/ c = HeldCoil(f)]]
+                  ELSE [st EXCEPT !.flip[f] = TRUE, !.on = [c \in FCoils |-> st.on[c] \/ c = HeldCoil(f)],
+                                  !.pulsed = IF Dev[f].dual THEN @ \cup {Dev[f].main} ELSE @]
 ReleaseSet(st, F) == [st EXCEPT !.flip = [f \in Flippers |-> st.flip[f] /\ f \notin F],
                                 !.on = [c \in FCoils |-> st.on[c] /\ c \notin UNION {FCoilsOf(f) : f \in F}]]
-S0 == [s EXCEPT !.calls = {}]
+\* calls / pulsed: what reached the platform in the current step only
+S0 == [s EXCEPT !.calls = {}, !.pulsed = {}]
 
 \* ---- explicit requests (control events or direct calls), at any time ------------------------------------------
 Req == nops < MaxOps /\ nops' = nops + 1
@@ -137,12 +142,13 @@ BtnRelease(r) == /\ r \in cfg.active \cap Reps /\ btn[r] /\ Req /\ SameSw /\ UNC
 EosClose(r) == /\ r \in cfg.active \cap Reps /\ ~eos[r] /\ Req /\ SameSw /\ UNCHANGED btn
                /\ eos' = [eos EXCEPT ![r] = TRUE] /\ eosAt' = [eosAt EXCEPT ![r] = now]
                /\ act' = [op |-> "eos", d |-> r, st |-> 1]
-               /\ s' = IF r \in s.mgr THEN [S0 EXCEPT !.longAt[r] = now + EosLong] ELSE S0
+               /\ s' = IF r \in s.mgr THEN [S0 EXCEPT !.longAt[r] = now + EosLong(r)] ELSE S0
 EosOpen(r) == /\ r \in cfg.active \cap Reps /\ eos[r] /\ Req /\ SameSw /\ UNCHANGED <<btn, eosAt>>
               /\ eos' = [eos EXCEPT ![r] = FALSE] /\ act' = [op |-> "eos", d |-> r, st |-> 0]
               /\ s' = IF r \in s.mgr /\ s.hBtn[r] /\ s.hLong[r]
-                      THEN [S0 EXCEPT !.longAt[r] = 0, !.hLong[r] = FALSE,
-                                      !.on[Dev[r].main] = IF Dev[r].dual THEN @ ELSE TRUE]     \* repulse: hold again / pulse
+                      THEN [S0 EXCEPT !.longAt[r] = 0, !.hLong[r] = FALSE,      \* repulse: one coil: hold again; two: pulse
+                                      !.on[Dev[r].main] = IF Dev[r].dual THEN @ ELSE TRUE,
+                                      !.pulsed = IF Dev[r].dual THEN {Dev[r].main} ELSE {}]
                       ELSE [S0 EXCEPT !.longAt[r] = 0]
 \* one unit of time: hit windows run out; due timers fire (ball search release, EOS debounce, autofire re-enable)
 Adv == /\ now < MaxTime /\ now' = now + 1
@@ -237,6 +243,16 @@ HandlersExact == s.mgr = {r \in Reps : s.en[r]}
 SafeWhenNotInPlay == ~InPlay => \A d \in FlipAuto : s.en[d] => s.man[d]
 \* no flipper coil is left energised once its flipper is disabled
 NoCoilLeftOn == \A f \in Flippers : ~s.en[f] => \A c \in FCoilsOf(f) : s.on[c] => \E g \in Flippers : s.en[g] /\ c \in FCoilsOf(g)
+\* nothing of the software EOS repulse survives the disable: no switch handler, no pending "closed long enough" timer
+NoSoftDriveLeft == \A r \in Reps : ~s.en[r] => (r \notin s.mgr /\ s.longAt[r] = 0)
+\* the cabinet button and the EOS switch of a disabled flipper are dead: whatever the history of presses, closures,
+\* repulses and time before the disable, they neither energise nor release a coil nor bring the flipper back
+ButtonDead == [][\A r \in Reps : (act'.op \in {"btn", "eos"} /\ act'.d = r /\ ~s.en[r])
+                                   => (s'.on = s.on /\ s'.pulsed = {} /\ ~s'.en[r])]_vars
+\* time alone never energises a flipper coil (timers only release: ball search; the EOS timer only arms the repulse)
+TimeNeverEnergises == [][act'.op = "adv" => (s'.pulsed = {} /\ \A c \in FCoils : s'.on[c] => s.on[c])]_vars
+\* software never pulses a coil of a flipper that is disabled
+NoPulseWhenDisabled == \A c \in s.pulsed : \E f \in Flippers : s.en[f] /\ c \in FCoilsOf(f)
 \* a pending timeout re-enable exists only where re-enabling would be legitimate
 NoStrayReenable == \A a \in Autos : s.reAt[a] # 0 => (InPlay \/ s.man[a])
 TypeOK == /\ phase \in {"noGame", "ballStarting", "ballLive", "ballEnding", "tilted", "service"}
